@@ -376,7 +376,9 @@ def finish(prop, rec, *, tier_name, seed_value, rule, t0, min_nontrivial=2,
 
     # replay files for unknown classes (stale ones of this property go first)
     replay_paths = []
-    rdir = os.path.join(VERIF, "replay")
+    scratch = REPO != "/repo"  # self-test against a scratch copy of the repo
+    rdir = os.path.join(WORK, "replay-scratch") if scratch else \
+        os.path.join(VERIF, "replay")
     if os.path.isdir(rdir):
         for name in os.listdir(rdir):
             if name.startswith(prop + "-") and name.endswith(".json"):
@@ -438,7 +440,8 @@ def finish(prop, rec, *, tier_name, seed_value, rule, t0, min_nontrivial=2,
         "wall_s": round(time.time() - t0, 2),
         "violations": int(sum(e["n"] for e in unknown)),
     }
-    edir = os.path.join(VERIF, "evidence")
+    edir = os.path.join(WORK, "evidence-scratch") if scratch else \
+        os.path.join(VERIF, "evidence")
     os.makedirs(edir, exist_ok=True)
     tmp = os.path.join(edir, f"{prop}.json.tmp")
     with open(tmp, "w") as f:
